@@ -26,14 +26,39 @@ VENV_PY = os.environ.get("KRROOD_PY", "/venv/bin/python")
 _HARNESSES = []
 
 
+HARNESS_WALL_BUDGET_S = 240          # per harness, quick tier (thorough: x5); a harness that needs more is reported undecided
+
+
+class _HarnessTimeout(BaseException):
+    pass
+
+
 def _run_idx(i):
+    import signal
+    from pyvc.framework import HarnessResult
+
+    def on_alarm(signum, frame):
+        raise _HarnessTimeout()
+    try:
+        signal.signal(signal.SIGALRM, on_alarm)
+        signal.alarm(int(HARNESS_WALL_BUDGET_S))
+    except Exception:
+        pass
     try:
         return run_harness(_HARNESSES[i])
+    except _HarnessTimeout:
+        r = HarnessResult(_HARNESSES[i].name)
+        r.undecided = f"wall-clock budget of {HARNESS_WALL_BUDGET_S}s exceeded (a slow query is an unstable one: reported undecided, never a violation)"
+        return r
     except BaseException as e:  # pragma: no cover
-        from pyvc.framework import HarnessResult
         r = HarnessResult(_HARNESSES[i].name)
         r.error = repr(e)
         return r
+    finally:
+        try:
+            signal.alarm(0)
+        except Exception:
+            pass
 
 
 def sanitize(s):
@@ -66,7 +91,9 @@ def run_deductive(pid, tier, jobs):
         raise
     global _HARNESSES
     _HARNESSES = mod.harnesses() if tier == "quick" or not hasattr(mod, "harnesses_thorough") else mod.harnesses_thorough()
+    global HARNESS_WALL_BUDGET_S
     if tier == "thorough":
+        HARNESS_WALL_BUDGET_S = 1200
         for h in _HARNESSES:
             if h.retry_unknown:
                 h.timeout_ms = max(h.timeout_ms, 60000)
